@@ -76,6 +76,19 @@ func checkC19(p *Prog, r *Report) {
 						}
 					}
 					why = "Remove must splice the current list"
+				} else if sl, isSl := st.Val.(*ssa.Slice); isSl {
+					// the truncation that completes a copy-shift removal
+					bf := pc.bf(f)
+					for _, s := range findSplices(bf) {
+						if builtinName(s.call.Common()) == "copy" {
+							la, lo := bf.atom(s.lo)
+							ha, ho := bf.atom(s.hi)
+							if la == ha && truncationAfter(bf, s.call, s.base, ho-lo) == sl {
+								good = true
+							}
+						}
+					}
+					why = "Remove must splice the current list"
 				}
 			}
 			r.decide(good, "C19.who-writes", fn+":"+p.describe(st), p.pos(st.Pos()), "list stored by "+fn+" in the expected form", "SoftCollection.col is written in an unexpected way: "+why)
